@@ -1018,7 +1018,7 @@ func main() {
 		emit("conc", in)
 	}
 	// ---- 4. large bodies (64 KiB .. 1 MiB), buffers up to 64 KiB
-	nl := 6
+	nl := 4
 	if th {
 		nl = 40
 	}
@@ -1119,7 +1119,7 @@ func main() {
 		}
 		emit("retain", in)
 	}
-	for k := 0; k < 12*scale; k++ {
+	for k := 0; k < 8*scale; k++ {
 		r := rng.Fork()
 		thr := r.Range(1, 8)
 		subs := []string{"S=1:1", "S=1:1", "S=0:2", "S=2:1", "S=1:0", "S=3:2"}[r.Intn(6)]
@@ -1129,7 +1129,7 @@ func main() {
 		if nm < 5 {
 			nm = 5
 		}
-		in := append([]string{"MS", "V=h", subs, fmt.Sprintf("T=%d", thr)}, bigMsgs(r, r.Range(nm, nm+3), 100000)...)
+		in := append([]string{"MS", "V=h", subs, fmt.Sprintf("T=%d", thr)}, bigMsgs(r, r.Range(nm, nm+3), 60000)...)
 		cfg.Count("handler_subs=" + subs)
 		emit("handler", in)
 	}
